@@ -447,7 +447,7 @@ func c20Free(c *Ctx, r *Rand, rounds int) {
 		select {
 		case <-done:
 			return true
-		case <-time.After(d):
+		case <-patient(d):
 			return false
 		}
 	}
@@ -473,7 +473,7 @@ func c20Free(c *Ctx, r *Rand, rounds int) {
 			cancel()
 			select {
 			case <-returned:
-			case <-time.After(2 * time.Second):
+			case <-patient(2 * time.Second):
 				rep.Fail("impl_ne_spec", nil, cs, map[string]interface{}{"what": "free-running: an Acquire blocked on a full limiter did not return after its context was cancelled"})
 				for _, rel := range rels {
 					rel()
